@@ -46,6 +46,10 @@ def check(ctx, R):
         _push_public(ctx, R, roles, T)
         _maxdata_sites(ctx, R, roles, T)
         _duck(ctx, R, roles, T)
+        # "no WRITE payload exceeds the device's maxdata": the limit used is the one the device announced (arg1 of its CNXN), adopted by connect()
+        from .c05 import _manager_connect, _device_connect
+        _manager_connect(ctx, R, roles, T)
+        _device_connect(ctx, R, roles, T)
     _txinfo(ctx, R, T)
     _files_to_push(ctx, R, T)
     R.assume("the negotiated maxdata is at least 16 (the protocol minimum is 4096); stream.read(n) returns at most n bytes and b'' only at end of file")
